@@ -266,6 +266,14 @@ def check_skip(c):
                 if not any(p[k] == v for p in pts):
                     res.check(np.array_equal(Z[k][:, v, :], Y0[k][:, v, :]), 'skip.untouched', c,
                               lambda: 'slice %d of core %d has no data but changed' % (v, k))
+        # the slices that do have data are fitted as usual: the last-updated core (core 1) is the minimiser on them, the objective descends
+        if d >= 2:
+            g, sc = grad_core(Z, 1, pts, y, 1e-3, None)
+            has = [v for v in range(shape[1]) if any(p[1] == v for p in pts)]
+            gm = max(np.abs(g[:, v, :]).max() for v in has)
+            res.check(gm <= 1e-8 * sc, 'skip.optimal', c,
+                      lambda: 'with a slice skipped, the gradient w.r.t. the last-updated core on the slices that have data is %.3e (scale %.3e)' % (gm, sc), ['optimal'])
+            res.check(objective(Z, pts, y, 1e-3, None) <= objective(Y0, pts, y, 1e-3, None) * (1 + 1e-10) + 1e-13, 'skip.descent', c, 'objective rose with a slice skipped')
     res.nt(c['points'])
     return res
 
@@ -476,6 +484,12 @@ def strata(tier, seed):
     for shape, M in plan[:4]:
         for ms in multisets(shape, min(M, 3), cover=False):
             sk.append(dict(shape=shape, points=ms, seed=seed))
+    # larger grids with exactly one slice removed, at every position (first, inner, last index of every mode)
+    for shape in ([4, 5, 4], [3, 4], [3, 2, 3, 2]):
+        g = [list(p) for p in space.all_indices(shape)]
+        for k in range(len(shape)):
+            for v in range(shape[k]):
+                sk.append(dict(shape=shape, points=[p for p in g if p[k] != v], seed=seed))
     yield Stratum('als-missing-slices', sk, 'skip', size=len(sk), chunk=32, bounds={})
     fl = []
     fplan = [([2, 2], 3), ([2, 2, 2], 3)] if tier == 'quick' else [([2, 2], 4), ([3, 2], 4), ([2, 2, 2], 4), ([3, 2, 2], 3)]
